@@ -121,12 +121,18 @@ def violated_keywords(schema, value, *, dialect, root, leaf_schemas=None):
 
     def walk(err, depth=0):
         if err.context and depth < 6:
+            # anyOf / oneOf: look only into the alternatives whose `type` admits the instance (the others are noise)
+            groups: dict = {}
             for sub in err.context:
-                walk(sub, depth + 1)
+                groups.setdefault(sub.relative_schema_path[0] if sub.relative_schema_path else 0, []).append(sub)
+            viable = {k: g for k, g in groups.items() if not any(x.validator == "type" and len(x.relative_path) == 0 for x in g)}
+            for group in (viable or groups).values():
+                for sub in group:
+                    walk(sub, depth + 1)
         else:
             out.add(str(err.validator))
             if leaf_schemas is not None and isinstance(err.schema, dict):
-                leaf_schemas.append((str(err.validator), err.schema))
+                leaf_schemas.append((str(err.validator), err.schema, err.instance))
 
     try:
         for e in orc.validator_for(js, dialect, "request").iter_errors(value):
@@ -177,10 +183,10 @@ def classify_invalid(schema, value, *, dialect, root, loc):
     for kws, leafs in options:
         # pattern x length: a violated leaf is a pattern / length keyword of a subschema that has both a pattern and a length
         # keyword (sibling anyOf / nullable branches contribute their own `type` errors)
-        culprits = [sub for kw, sub in leafs if kw in ("pattern", "minLength", "maxLength") and "pattern" in sub and ("minLength" in sub or "maxLength" in sub)]
+        culprits = [sub for kw, sub, _inst in leafs if kw in ("pattern", "minLength", "maxLength") and "pattern" in sub and ("minLength" in sub or "maxLength" in sub)]
         if culprits and set(kws) <= allowed:
             anchorings = sorted({pattern_anchoring(sub["pattern"]) for sub in culprits})
-            which = "length" if any(kw in ("minLength", "maxLength") for kw, sub in leafs if sub in culprits) else "pattern"
+            which = "length" if any(kw in ("minLength", "maxLength") for kw, sub, _inst in leafs if sub in culprits) else "pattern"
             return f"pattern+length:{which}-violated:anchored={'+'.join(anchorings)}"
     kws, leafs = min([o for o in options if "type" not in o[0]] or options, key=lambda o: len(o[0]))  # prefer the reading of the declared type
     if "not" in kws and loc == "body":
